@@ -451,6 +451,21 @@ only syncs Money). -/
 def pwcuModify (s : FS) (uid : Int) (held : List Nat) (shmMoney : Int) : FS × Out :=
   pwcuModifyG pwcuSame s uid held shmMoney id
 
+/-- history "a holder loads the record of `uid` (ptt.InitCurrentUserByUID); the Money field is modified in
+place and acknowledged (cache.SetUMoney uid money); the holder stores its EARLIER copy with a new user level
+(ptt.SetUserPerm → passwdSyncUpdate → cmbbs.PasswdUpdate)".  The store funnel re-syncs Money from the
+shared-memory cache (regenerated flag) — that is what lets the acknowledged field modify survive. -/
+def storeEarlierCopy (s : FS) (uid : Int) (money : Int) (perm : Nat) : FS :=
+  match passwdQuery s uid 0 Gen.RecFile.packedUserecRaw with
+  | .recs .ok [(_, r)] =>
+    let s1 := (moneyUpdate s uid money).1
+    let r1 := setField r Gen.RecFile.pwOffUserLevel Gen.RecFile.pwLenUserLevel (le32 perm)
+    let r2 := if Gen.RecFile.storeFunnelResyncsMoney then
+        setField r1 Gen.RecFile.pwOffMoney Gen.RecFile.pwLenMoney (le32 (money % 4294967296).toNat)
+      else r1
+    (passwdUpdate s1 uid 0 r2).1
+  | _ => (moneyUpdate s uid money).1        -- the load failed: nothing is stored
+
 /-! ### operations and histories -/
 
 inductive Op where
